@@ -1595,6 +1595,59 @@ theorem C05_crashed_discovery_never_used (F : List Policy) (ov : Bool) (d : Doma
       obtain ⟨e, he⟩ := this F tl hd
       exact ⟨e, by simp [he]⟩
 
+/-! ## a lookup fails — with whatever RCODE (round 10)
+
+RFC 7672 §2.1.1 / §2.2: when it cannot be determined whether the MX publishes TLSA records (ANY lookup failure: SERVFAIL,
+REFUSED, NOTIMP, FORMERR, a time-out …) delivery is delayed — the message is neither sent nor bounced.  Only NOERROR (an
+answer) and NXDOMAIN (no such records) are answers. -/
+
+theorem answered_failed (rc : Nat) (h0 : rc ≠ 0) (h3 : rc ≠ 3) : answered rc = .failed := by
+  simp [answered, h0, h3]
+
+/-- **every RCODE other than NOERROR / NXDOMAIN is a lookup failure**, at whichever base domain, whatever is published -/
+theorem C05_failed_lookup_whatever_the_rcode (rc : Nat) (h0 : rc ≠ 0) (h3 : rc ≠ 3) (t : Tlsa) (ad : Bool) :
+    atBase (t.under rc) ad = .lookupFailed ∧ lookupInitial (t.under rc) ad = .fail ∧ cnameQueryFails rc = true := by
+  simp [Tlsa.under, cnameQueryFails, answered_failed rc h0 h3, atBase, lookupInitial]
+
+/-- hence: an MX in a signed zone whose TLSA query is answered with such an RCODE has a failed discovery, the DANE check of
+any connection to it ends in a TEMPORARY error (the queue keeps the message) and no connection to it is ever handed out -/
+theorem C05_failed_tlsa_lookup_defers (rc : Nat) (h0 : rc ≠ 0) (h3 : rc ≠ 3) (t : Tlsa) (mx : MX)
+    (hc : mx.cname = .none) (ha : mx.aAD = true) (ht : mx.tlsa = t.under rc) (d : Domain) :
+    discovery mx = .failed ∧
+    (∀ s tl, checkConn .dane tl d mx s = .error .temp) ∧
+    (∀ F ov, Policy.dane ∈ F → ∃ e, attemptMX F ov d mx = .error e) := by
+  have hf : discovery mx = .failed := by
+    simp [discovery, governing, hc, ha, ht, (C05_failed_lookup_whatever_the_rcode rc h0 h3 t mx.tlsaAD).1]
+  refine ⟨hf, ?_, ?_⟩
+  · intro s tl
+    simp [checkConn, (discover_spec mx).1 hf]
+  · intro F ov hd
+    exact attemptMX_discfail_err F ov d mx hd hf
+
+/-- the same for the CNAME-type query of an alias whose address answer is not authenticated as a whole -/
+theorem C05_failed_cname_query_defers (rc : Nat) (h0 : rc ≠ 0) (h3 : rc ≠ 3) (mx : MX)
+    (hc : mx.cname ≠ .none) (ha : mx.aAD = false) (he : mx.cnameErr = cnameQueryFails rc) : discovery mx = .failed := by
+  have := (C05_failed_lookup_whatever_the_rcode rc h0 h3 .none false).2.2
+  rw [this] at he
+  cases hcn : mx.cname with
+  | none => exact absurd hcn hc
+  | secure => simp [discovery, governing, hcn, ha, he]
+  | insecure => simp [discovery, governing, hcn, he]
+
+/-- and for the address lookups discovery starts with (they decide whether DANE applies to the host at all) -/
+theorem C05_failed_address_lookup_defers (rc : Nat) (h0 : rc ≠ 0) (h3 : rc ≠ 3) (mx : MX) (d : Domain) :
+    discovery (mx.addrLookupAnswered rc) = .failed ∧
+    (∀ F ov, Policy.dane ∈ F → ∃ e, attemptMX F ov d (mx.addrLookupAnswered rc) = .error e) := by
+  have hf : discovery (mx.addrLookupAnswered rc) = .failed := by
+    simp only [MX.addrLookupAnswered, answered_failed rc h0 h3]
+    exact (C05_crashed_discovery_is_failed_discovery mx).1
+  exact ⟨hf, fun F ov hd => attemptMX_discfail_err F ov d _ hd hf⟩
+
+example : discovery (⟨1, true, .offered, .valid, true, true, false, Tlsa.eeMatch.under 5, false, .none, .none, false, false⟩ : MX)
+    = .failed := by decide
+
+example : (Tlsa.eeMatch.under 0, Tlsa.eeMatch.under 3, Tlsa.eeMatch.under 4) = (.eeMatch, .none, .servfail) := by decide
+
 /-! ## the configured minimum levels (round 9)
 
 Spec, from the documentation of `local_policy`: `min_tls_level none|encrypted|authenticated` (default `encrypted`),
